@@ -479,6 +479,18 @@ def check_clauses(ctx, tag, n):
             rr = res[k].get('res'); k += 1
             if not rr or rr[0] != 'Ok' or strip(rr)[0] is not True or strip(rr)[1] != strip(base)[1]:
                 ctx.failing('%r in front of the clause %r: read as %s' % (f, b, json.dumps(rr)[:200]), {'class': 'clause-negation', 'text': f + b, 'plain': b}, found=True)
+    ftexts = fclause_corpus(ctx.seed, max(500, n // 2))
+    fout = run_fclauses(ftexts, ctx.wd, tag + 'f')
+    fstats = {}
+    for t, v, r in fout:
+        fstats[v] = fstats.get(v, 0) + 1
+        if v in ('PLAgree', 'PLAgreeReject', 'PLNotModelled'):
+            continue
+        ctx.failing('clause over queries with filters %r: single_clause answers %s, the model says otherwise (%s)' % (t[:80], json.dumps(r)[:200], v),
+                    {'class': 'clause-with-filters-correspondence', 'text': t, 'impl': r, 'verdict': v}, found=False)
+    ctx.coverage['clause_with_filters_texts'] = len(ftexts)
+    ctx.coverage['clause_with_filters_verdicts'] = fstats
+    ctx.coverage['evaluations'] += len(ftexts)
     ctx.coverage['clause_texts'] = len(texts)
     ctx.coverage['clause_verdicts'] = stats
     ctx.coverage['evaluations'] += len(texts) + len(ops)
@@ -765,6 +777,107 @@ def run_filters(texts, wd, tag='flparse'):
         cases.append((i, '', 'access_f_obs %s %s %s' % (rv, ct.cstr(t), it)))
         out[i] = (t, None, r['res'])
     verdicts, errors = model.eval_cases(cases, wd, tag, header=FL_HEADER, per_file=150)
+    if errors:
+        raise ToolingError('model evaluation failed: %r' % (errors[:1],))
+    for i, _, _ in cases:
+        out[i] = (out[i][0], verdicts.get(i, 'NoModelOutput'), out[i][2])
+    return out
+
+
+# ------------------------------------------------------------------ access clauses over queries with filters (ClauseFParse.clause_f)
+CF_HEADER = ('From Coq Require Import String ZArith NArith List.\nFrom GV.Model Require Import Ast.\nFrom GV.Model Require Import ValueParse QueryParse OpParse ClauseParse CnfParse FilterParse ClauseFParse.\n'
+             'Import ListNotations.\n')
+
+
+def fparts_term(aq):
+    parts = []
+    for p in ct.L(aq[1]):
+        try:
+            parts.append(impl_fpart_term(p))
+        except (ct.TranslateError, KeyError, IndexError, TypeError):
+            parts.append('IFOther')
+    return ct.clist(parts), ct.cbool(aq[2])
+
+
+def impl_fclause_term(res):
+    if res[0] != 'Ok':
+        return {'Error': 'IFCError', 'Failure': 'IFCFailure'}.get(res[0], 'IFCOther')
+    ac = res[1][1]
+    aq, cmp_, w, custom, neg = ac[1], ac[2], ac[3], ac[4], ac[6]
+    w = w['O'] if isinstance(w, dict) and 'O' in w else w
+    if w is None:
+        wt = 'IFRNone'
+    elif w[0] == 'LValue':
+        try:
+            wt = '(IFRLit %s)' % pv_lit_term(w[1])
+        except ct.TranslateError:
+            wt = 'IFROther'
+    elif w[0] == 'LAccess':
+        wt = '(IFRQuery %s %s)' % fparts_term(w[1])
+    else:
+        wt = 'IFROther'
+    parts, all_ = fparts_term(aq)
+    return '(IFCOk %s %s %s O%s %s %s %s %d%%N)' % (ct.cbool(neg), parts, all_, cmp_[1], ct.cbool(cmp_[2]), wt, ct.ostr(custom), res[2])
+
+
+def fclause_corpus(seed, n):
+    rng = random.Random(seed * 2503 + 14)
+    texts = []
+    lhs = ['a' + f for f in FL_FILTERS[:24]] + ["Resources.*[ Type == 'T' ].Properties.Size", '%v[ k | a exists ].b', 'this[ x == 1 ]', 'some a[ b == 1 ].c', "a[ keys == 'k' ].v"]
+    rhs = ['1', '"s"', '[1, 2]', '%w', "%w[ t == 'x' ].y", 'b[ c == 1 ]', 'b[ keys == /x/ ]', 'b.c', 'null', 'count(b[ c == 1 ])', '']
+    for l in lhs:
+        for nt in ('', 'not ', '!'):
+            texts += [nt + l + ' exists', nt + l + ' !empty <<m>>', nt + l + ' == 1', nt + l + ' in [1, "a"] <<m>>']
+        for r in rhs:
+            texts += [l + ' == ' + r, l + ' in ' + r + ' <<m>>', 'x != ' + r]
+    while len(texts) < n:
+        t = rng.choice(LAYOUTS) + rng.choice(CL_NOTS)
+        t += rng.choice(lhs) if rng.random() < 0.6 else filter_corpus.__globals__['gen_query_text'](rng)
+        if rng.random() < 0.35:
+            t += ' ' + rng.choice(CL_OPS_UN)
+        else:
+            t += ' ' + rng.choice(CL_OPS_BIN) + ' ' + (rng.choice(rhs) if rng.random() < 0.6 else rng.choice(CL_RHS))
+        t += rng.choice(CL_MSGS) + rng.choice(CL_TAILS)
+        texts.append(t)
+        if rng.random() < 0.25:
+            texts.append(mutate(t, rng))
+    seen, out = set(), []
+    for t in texts:
+        if t not in seen:
+            seen.add(t); out.append(t)
+    return out
+
+
+def run_fclauses(texts, wd, tag='cfparse'):
+    from . import vparse
+    res = impl.run_ops_parallel([{'op': 'pclause', 'text': t} for t in texts], wd, tag + '.pf')
+    cands = sorted(set().union(*[vparse.regex_candidates(t) for t in texts])) if texts else []
+    cand_txt = []
+    for c in cands:
+        try:
+            cand_txt.append(c.decode('utf-8'))
+        except UnicodeDecodeError:
+            pass
+    rres = impl.run_ops_parallel([{'op': 'regex', 're': c, 'text': ''} for c in cand_txt], wd, tag + '.re') if cand_txt else []
+    valid = {}
+    for c, r in zip(cand_txt, rres):
+        rr = r.get('res')
+        valid[c] = bool(rr) and rr[0] == 'Ok'
+    cases, out = [], [None] * len(texts)
+    for i, (t, r) in enumerate(zip(texts, res)):
+        if 'res' not in r:
+            out[i] = (t, 'crash', r)
+            continue
+        mine = [c for c in cand_txt if c.encode('utf-8') in vparse.regex_candidates(t)] if '/' in t else []
+        table = ct.clist(['(%s, %s)' % (ct.cstr(c), ct.cbool(valid[c])) for c in mine])
+        rv = '(fun s => match assoc s %s with Some b => b | None => false end)' % table
+        try:
+            it = impl_fclause_term(r['res'])
+        except (ct.TranslateError, KeyError, IndexError, TypeError):
+            it = 'IFCOther'
+        cases.append((i, '', 'clause_f_obs %s %s %s' % (rv, ct.cstr(t), it)))
+        out[i] = (t, None, r['res'])
+    verdicts, errors = model.eval_cases(cases, wd, tag, header=CF_HEADER, per_file=120)
     if errors:
         raise ToolingError('model evaluation failed: %r' % (errors[:1],))
     for i, _, _ in cases:
